@@ -259,6 +259,33 @@ pub fn gen_c09(rng: &mut Rng, thorough: bool, emit: &mut dyn FnMut(StreamCase)) 
             }
         }
     }
+    // write_vectored with a first slice so large and incompressible that the encoder accepts only part of
+    // it, followed by a small one: Ok(n) must describe the first n bytes of the concatenation
+    for level in [1u32, 6, 9] {
+        for cap in [4096usize, 65536] {
+            let noise = payload_kind(rng, 2, 200_000);
+            let ops = vec![
+                Op::WriteV(vec![noise.clone(), b"<<tail>>".to_vec()]),
+                Op::Flush,
+                Op::Drain(1),
+                Op::WriteV(vec![vec![], b"second".to_vec(), noise[..70_000].to_vec()]),
+                Op::DropWriter,
+                Op::Drain(1),
+                Op::Poll(1),
+            ];
+            let mut c = base(cap, ops, format!("G:c09 vectored level={} cap={}", level, cap));
+            c.accept_encoding = Some(b"gzip".to_vec());
+            c.gz_level = level;
+            emit(c);
+            // a plain write so large and incompressible that it is accepted only in part, then flush at once
+            // (F10: flate2 loses the sync-flush request while output is still pending in the encoder)
+            let ops = vec![Op::Write(noise.clone()), Op::Flush, Op::Drain(1), Op::Write(noise[100_000..].to_vec()), Op::Flush, Op::Flush, Op::Drain(1), Op::DropWriter, Op::Drain(1), Op::Poll(1)];
+            let mut c = base(cap, ops, format!("G:c09 partial-write-then-flush level={} cap={}", level, cap));
+            c.accept_encoding = Some(b"gzip".to_vec());
+            c.gz_level = level;
+            emit(c);
+        }
+    }
     gen_random(rng, if thorough { 10000 } else { 800 }, false, true, emit);
 }
 
